@@ -258,6 +258,7 @@ def run(chk, prog, tier):
     c05.check_change_reported(chk, prog)
     c03.check_restamp(chk, prog)
     extent_common.check_scan_extent(chk, prog)
+    extent_common.check_chunk_covers(chk, prog)
     c16.check_stale_count(chk, prog)
     c16.check_stale_counted(chk, prog)
     c16.check_row_retired(chk, prog)
